@@ -12,7 +12,7 @@ import ast
 from .. import symex
 from ..core import (AnalysisError, short, unparse, iter_own, call_name, call_recv, kwarg,
                     is_self_attr, atomic_facts, split_conj, parents, enclosing_stmt, always_exits,
-                    const_value)
+                    const_value, const_members)
 
 MOD = 'pylatexenc.latexnodes._parsingstate'
 CLS = 'ParsingState'
@@ -49,6 +49,36 @@ def _self_attrs_stored(node, selfname='self'):
                     if is_self_attr(tt, None, selfname):
                         out.setdefault(tt.attr, []).append(n)
     return out
+
+
+def _table_guard_fields(m, fn, t, pol, p_kwargs):
+    """the field names tested by a guard operand written over a table of names --
+    `not any(f in kwargs for f in TABLE)`, `all(f not in kwargs for f in TABLE)` (generator or list comprehension; TABLE a
+    constant tuple at module or class level, or a display) -- or None when `t` is something else"""
+    if not (isinstance(t, ast.Call) and isinstance(t.func, ast.Name) and t.func.id in ('any', 'all') and len(t.args) == 1
+            and isinstance(t.args[0], (ast.GeneratorExp, ast.ListComp)) and len(t.args[0].generators) == 1):
+        return None
+    comp = t.args[0]
+    g = comp.generators[0]
+    if g.ifs or not isinstance(g.target, ast.Name):
+        return None
+    e = comp.elt
+    if not (isinstance(e, ast.Compare) and len(e.ops) == 1 and isinstance(e.left, ast.Name) and e.left.id == g.target.id
+            and unparse(e.comparators[0]) == p_kwargs):
+        return None
+    absent = (t.func.id == 'any' and isinstance(e.ops[0], ast.In) and not pol) or \
+        (t.func.id == 'all' and isinstance(e.ops[0], ast.NotIn) and pol)
+    if not absent:
+        return None
+    table = g.iter
+    if isinstance(table, ast.Attribute) and isinstance(table.value, ast.Name) and table.value.id in ('self', 'cls', 'ParsingState'):
+        cls = [p_ for p_ in parents(fn) if isinstance(p_, ast.ClassDef)]
+        defs = [st.value for st in (cls[0].body if cls else []) if isinstance(st, ast.Assign) and len(st.targets) == 1
+                and isinstance(st.targets[0], ast.Name) and st.targets[0].id == table.attr]
+        if len(defs) != 1:
+            return None
+        table = defs[0]
+    return const_members(m, table)
 
 
 def run(ctx):
@@ -146,6 +176,10 @@ def run(ctx):
                         unparse(t.comparators[0]) == 'None':
                     has_parent = True
                     continue
+            tf = _table_guard_fields(m, fn, t, pol, p_kwargs)
+            if tf is not None:
+                key_fields |= set(tf)
+                continue
             other.append((t, pol))
         inherit_stores = _self_attrs_stored(ast.Module(body=guard.body, type_ignores=[]))
         rest = list(guard.orelse) + [s for s in fn.body if s is not guard and s.lineno > guard.lineno]
